@@ -269,6 +269,24 @@ func runC20(t *rapid.T, st *vfhelp.Stats, p c20Plan) ([]string, bool, interface{
 	}
 	// export
 	exp := c.Hosts[p.Exporter]
+	// barrier: the exporter must have applied the membership changes made above (they
+	// were acknowledged by another replica), otherwise the exported image
+	// legitimately still contains the old membership
+	{
+		var berr error
+		for dl := time.Now().Add(20 * time.Second); time.Now().Before(dl); {
+			ctx, cancel := context.WithTimeout(context.Background(), 2*time.Second)
+			_, berr = exp.NH.SyncRead(ctx, shardID, "k0")
+			cancel()
+			if berr == nil {
+				break
+			}
+			time.Sleep(20 * time.Millisecond)
+		}
+		if berr != nil {
+			return inconclusive("barrier")
+		}
+	}
 	if err := exp.FS.MkdirAll("/export", 0o755); err != nil {
 		return inconclusive("mkdir")
 	}
